@@ -342,6 +342,8 @@ func (m *FieldMap) getOrCreate(tag Tag) field {
 
 	if f, ok := m.tagLookup[tag]; ok {
 		f = f[:1]
+		// A repeating group overwritten by a plain field must lose its members.
+		m.tagLookup[tag] = f
 		return f
 	}
 
